@@ -1,9 +1,9 @@
 """C15 - value expressions evaluate as written and survive printing.
 Correspondence: generated expressions (bounded-exhaustive small operator trees, random deep trees with
 let-bindings, lambdas and function definitions, every operator spelling, redundant parentheses, white
-space variations, a malformed stream) go as TEXT to ledger (REPL `parse`, `eval verif_rational(..)`,
-and `eval` of the text ledger printed) and as the TOKEN LIST to the extracted Coq model
-(Model/Expr.v: parse, print, compile, calc).  Compared: the printed tree text, the value, the value of
+space variations, a malformed stream, tokenizer-directed texts) go as TEXT to ledger (REPL `parse`,
+`eval verif_rational(..)`, and `eval` of the text ledger printed) and as the SAME TEXT to the extracted Coq model,
+which tokenizes it itself (Model/ExprLex.v: lex_prefix, parse_text; Model/Expr.v: parse, print, compile, calc).  Compared: the printed tree text, the value, the value of
 the re-parsed printed text.
 Oracle: a reference evaluator over the abstract syntax with Fractions, written from the documented
 grammar (precedence by construction of the tree, short-circuit and/or, one-branch ?:, lexical
@@ -19,8 +19,8 @@ META = dict(
     id='C15',
     level='proof',
     technique='Coq proof (recursive-descent parser model vs the precedence grammar; calc/compile/print model) + differential correspondence of the extracted model against ledger + reference evaluator',
-    level_text='Theorems in coq/Properties/Properties_C15.v state, for all expressions of the operator grammar, that the model of parser.cc parses the minimally parenthesised text (and any more heavily parenthesised one) of an abstract expression to exactly its tree (precedence unary > * / > + - > comparisons > & > | > ?:, left associativity, parentheses override), that op_t::print output parses back to the same tree, conditionals included, that & | ?: evaluate only the operands the grammar says, that compiled identifiers keep the meaning they had at definition, and that constant folding and compilation preserve values. The model is tied to the code by running thousands of generated expressions through freshly built ledger (text as parsed, exact values through verif_rational, re-parse of the printed text) and through the extracted model.',
-    level_note='Trusted: Coq kernel; extraction + OCaml driver and python harness for the correspondence; the tokenizer is exercised by the correspondence (the model starts from tokens); value arithmetic is Model/Amount.v (C03). Not modelled: strings, dates, regex masks, member lookup, sequences as values, per-SCOPE symbol tables (use-before-definition inside a body).',
+    level_text='Theorems in coq/Properties/Properties_C15.v state, for all expressions of the operator grammar, that the model of parser.cc parses the minimally parenthesised text (and any more heavily parenthesised one) of an abstract expression to exactly its tree (precedence unary > * / > + - > comparisons > & > | > ?:, left associativity, parentheses override), that op_t::print output parses back to the same tree, conditionals included, that the tokenizer model reads every operator spelling, word operator and boolean back from its text whatever the number of blanks between tokens and skips white space in front of any token, that & | ?: evaluate only the operands the grammar says, that compiled identifiers keep the meaning they had at definition, and that constant folding and compilation preserve values. The model is tied to the code by running thousands of generated expressions through freshly built ledger (text as parsed, exact values through verif_rational, re-parse of the printed text) and through the extracted model.',
+    level_note='Trusted: Coq kernel; extraction + OCaml driver and python harness for the correspondence; the tokenizer is modelled (Model/ExprLex.v) and the model is given the expression text; its round trip is proved for the fixed-spelling tokens only (identifiers and literals: computed examples + correspondence); value arithmetic is Model/Amount.v (C03). Not modelled: strings, dates, regex masks, member lookup (each a lexing failure in the model), sequences as values, per-SCOPE symbol tables (use-before-definition inside a body).',
     design_ref='DESIGN.md section 7 C15, section 9 F1 (F6 and F34 repaired)',
     assumptions=['expressions avoid built-in function names, the predefined time commodities s/m/h and reserved words as identifiers',
                  'INTEGER values stay within C long',
@@ -1222,7 +1222,8 @@ def run(ctx, n_override=None):
     res.rule = ('all operator trees of depth <= 2 over 10 leaves (to_int integers, decimals, $ and EUR amounts, braced literals, booleans, zero) '
                 'and 12 binary + 2 unary operators + ?:, a sample (thorough: a bounded-exhaustive sweep over 4 leaves) of depth 3; random trees of '
                 'depth <= 7 with let-bindings, lambdas, function definitions, calls, every operator spelling, redundant parentheses and white '
-                'space variations; directed scoping / short-circuit / precedence shapes; a malformed stream (printed text only). '
+                'space variations; directed scoping / short-circuit / precedence shapes; a malformed stream (printed text only); tokenizer texts (word-operator '
+                'edges, two-character operators, identifier/number adjacency, {..}) and random trees spelled without any optional blank and with blanks everywhere. '
                 'non-trivial = at least two different node kinds and the reference evaluator determines the value; distinct by text')
     scale = n_override or 1
     journal, pool0 = make_journal(ctx, rng, 'teach.dat')
